@@ -43,6 +43,7 @@ type Scenario struct {
 	// inside the audit-skip, audit-pass and audit-fail events
 	BusyFD    int64
 	BusyAudit int64
+	BusyCap   int64 // the rate limiter's GiveMe takes this long
 	Watchers  []WCfg
 	Steps     []Step
 	Tail      int64 // ns to keep the bubble alive after the last step (wind-down)
@@ -57,8 +58,8 @@ func b2i(b bool) int64 {
 
 func (s *Scenario) WriteHeader(w io.Writer) {
 	fmt.Fprintf(w, "name %s\n", s.Name)
-	fmt.Fprintf(w, "cfg %d %d %d %d %d %d %d %d %d %d %d %d\n", s.Gen, s.BufCap, b2i(s.ErrFull), b2i(s.Limiter),
-		s.Flush, s.CapInt, s.Audit, s.MaxOp, s.Pause, s.MaxConc, s.BusyFD, s.BusyAudit)
+	fmt.Fprintf(w, "cfg %d %d %d %d %d %d %d %d %d %d %d %d %d\n", s.Gen, s.BufCap, b2i(s.ErrFull), b2i(s.Limiter),
+		s.Flush, s.CapInt, s.Audit, s.MaxOp, s.Pause, s.MaxConc, s.BusyFD, s.BusyAudit, s.BusyCap)
 	for _, wc := range s.Watchers {
 		fmt.Fprintf(w, "watcher %d %d %d\n", wc.MaxBatch, wc.MaxAttempts, wc.MaxOp)
 	}
@@ -115,6 +116,9 @@ func ReadScenario(path string) (*Scenario, error) {
 			if len(fs) > 12 {
 				sc.BusyFD = atoi(fs[11])
 				sc.BusyAudit = atoi(fs[12])
+			}
+			if len(fs) > 13 {
+				sc.BusyCap = atoi(fs[13])
 			}
 		case "watcher":
 			sc.Watchers = append(sc.Watchers, WCfg{uint32(atoi(fs[1])), uint32(atoi(fs[2])), atoi(fs[3])})
